@@ -9,6 +9,10 @@
   kernel-checked witness of the pre-repair state).  One finding is OPEN: F45 (section F) — the write
   deadline is one absolute instant, so a response whose BODY the origin delivers over more than
   WriteTimeout is cut off although only the origin is slow: full statement, the part that holds, witness.
+  Section H is the keep-alive loop with the reader (`KConn/nextK/runK`: what a client sends ahead while its
+  previous request is served — a pipelined request, the first bytes of one — is under freshly armed deadlines
+  from the instant the loop comes round); section I: pieces that do not complete a phase never move its
+  deadline (dribbling peers).  Both come with kernel-checked refutations of the variants that do otherwise.
 
   Times are milliseconds.  The limits used in the examples are
       L₀ = ⟨idle 400, readHeader 250, read 0 (unset), tls 300, proxyHdr 200, write 0 (unset)⟩;
@@ -617,6 +621,259 @@ theorem c15_tunnel_read_deadline_inherited_witness :
     ¬ WF ⟨400, 250, 400, 300, 200, 150⟩ (tunnelInherited ⟨400, 250, 400, 300, 200, 150⟩ ⟨.waitingForOrigin, 10, none⟩) := by
   refine ⟨by decide, by decide, by decide, ?_⟩
   simp [WF, tunnelInherited, limitOf, dl]
+
+/-! ## H. The keep-alive loop: what the client sent ahead is under the limits when the loop comes round
+
+`KConn/nextK/runK` (Model): the loop `readRequest → handle → writeResponse → readRequest` with the reader.
+`readRequest` arms its deadlines every time, whatever the reader holds; for bytes that are already there the
+head counts as begun at the instant the loop comes round (`Peek(1)` returns at once, `t0 = now`). -/
+
+/-- the loop is a conservative extension: on every script in which the client sends nothing while the
+    proxy serves the previous request it is the automaton of sections A–G -/
+theorem c15_loop_agrees_without_write_ahead (S : Stacking) (L : Limits) (c : Conn) (evs : List (Nat × Ev))
+    (h : noWriteAhead S L c evs = true) : runK S L ⟨c, []⟩ evs = run S L c evs :=
+  runK_eq_run evs h
+
+example :
+    noWriteAhead ⟨false, false, false⟩ ⟨400, 250, 0, 300, 200, 0⟩ (accepted ⟨false, false, false⟩ ⟨400, 250, 0, 300, 200, 0⟩ 0)
+      [(100, .head .noBody), (2000, .complete), (2300, .data)] = true ∧
+    noWriteAhead ⟨false, false, false⟩ ⟨400, 250, 0, 300, 200, 0⟩ (accepted ⟨false, false, false⟩ ⟨400, 250, 0, 300, 200, 0⟩ 0)
+      [(100, .head .noBody), (100, .data), (2000, .complete)] = false := by decide
+
+/-- B for the loop: whatever the peers do, whenever, however much they send ahead — if the proxy closes
+    the connection at `t`, stalled in phase `p` whose deadline counts from `s`, then `p` has a limit and
+    `t = s + limit` -/
+theorem c15_loop_closed_only_at_limit (S : Stacking) (L : Limits) (a : Nat) (evs : List (Nat × Ev))
+    {t s : Nat} {p : Phase} (h : runK S L ⟨accepted S L a, []⟩ evs = .closed t p s) :
+    0 < limitOf L p ∧ t = s + limitOf L p :=
+  runK_closed_wf evs (wf_accepted S L a) h
+
+example : runK ⟨false, false, false⟩ ⟨400, 250, 0, 300, 200, 0⟩ ⟨accepted ⟨false, false, false⟩ ⟨400, 250, 0, 300, 200, 0⟩ 0, []⟩
+    [(100, .head .noBody), (100, .head .noBody), (100, .data), (900, .complete), (2000, .complete), (2100, .data)]
+      = .closed 2250 .header 2000 := by decide
+
+/-- A for the loop: a connection with an empty reader that makes no progress in a phase in which the proxy
+    reads is closed at `phaseStart + limit`, whatever stray pieces arrive -/
+theorem c15_loop_stall_closed_at_limit (S : Stacking) (L : Limits) (c : Conn) (evs : List (Nat × Ev))
+    (hwf : WF L c) (hr : notReading c.phase = false) (hl : 0 < limitOf L c.phase)
+    (hs : ∀ x ∈ evs, noProgress c.phase x.2 = true) :
+    runK S L ⟨c, []⟩ evs = .closed (c.anchor + limitOf L c.phase) c.phase c.anchor :=
+  runK_stalled_some (by rw [hwf]; exact dl_pos hl) hr evs hs
+
+example : runK ⟨true, true, false⟩ ⟨400, 250, 0, 300, 200, 0⟩ ⟨accepted ⟨true, true, false⟩ ⟨400, 250, 0, 300, 200, 0⟩ 0, []⟩
+    [(120, .complete), (130, .data), (400, .data)] = .closed 420 .tlsHandshake 120 := by decide
+
+/-- the seeded mistake's clause.  The response to the previous request has been relayed at `t` and the reader
+    holds `b` pieces of the next request head — ANY number `b > 0`, short of a complete head (they came in
+    the same segment as the previous request, or while it was being served).  Then, for the connection waiting
+    for the origin or relaying the response: the header deadline is armed at the instant the loop comes round
+    (`u = max t anchor`), the reader is consumed, and a client that now stalls — or dribbles further pieces —
+    is closed at `u + readHeaderTimeout()` -/
+theorem c15_buffered_partial_head_still_limited (S : Stacking) (L : Limits) (c : Conn) (b t : Nat)
+    (evs : List (Nat × Ev)) (hp : c.phase = .waitingForOrigin ∨ c.phase = .writing) (hb : 0 < b)
+    (hbefore : ∀ d, c.deadline = some d → max t c.anchor < d) (hl : 0 < headerLimit L)
+    (hs : ∀ x ∈ evs, x.2 = .data) :
+    (KConn.mk c (partialHead b)).buffered = b ∧
+    nextK S L ⟨c, partialHead b⟩ (max t c.anchor) .complete = ⟨enter L .header (max t c.anchor), []⟩ ∧
+    (nextK S L ⟨c, partialHead b⟩ (max t c.anchor) .complete).conn.deadline
+      = some (max t c.anchor + headerLimit L) ∧
+    runK S L ⟨c, partialHead b⟩ ((t, .complete) :: evs)
+      = .closed (max t c.anchor + headerLimit L) .header (max t c.anchor) := by
+  have hn := nextK_round_partialHead (S := S) (L := L) (c := c) (max t c.anchor) hp hb
+  refine ⟨by simp [KConn.buffered, partialHead], hn, ?_, ?_⟩
+  · rw [hn]; exact dl_pos hl
+  · rw [runK_cons_before evs hbefore, hn]
+    exact c15_loop_stall_closed_at_limit S L _ evs (wf_enter ..) rfl hl (fun x hx => by rw [hs x hx]; rfl)
+
+example : runK ⟨false, false, false⟩ ⟨400, 250, 0, 300, 200, 0⟩ ⟨⟨.waitingForOrigin, 10, none⟩, partialHead 3⟩
+    [(100, .complete), (200, .data), (340, .data)] = .closed 350 .header 100 := by decide
+
+/-- … and with an EMPTY reader (`b = 0`) the same instant starts the idle wait: closed at `u + idleTimeout()` -/
+theorem c15_empty_reader_idle_limit (S : Stacking) (L : Limits) (c : Conn) (t : Nat)
+    (hp : c.phase = .waitingForOrigin ∨ c.phase = .writing)
+    (hbefore : ∀ d, c.deadline = some d → max t c.anchor < d) (hl : 0 < idleLimit L) :
+    (KConn.mk c []).buffered = 0 ∧
+    runK S L ⟨c, []⟩ [(t, .complete)] = .closed (max t c.anchor + idleLimit L) .idle (max t c.anchor) := by
+  refine ⟨rfl, ?_⟩
+  have hn : next S L c (max t c.anchor) .complete = enter L .idle (max t c.anchor) := by
+    rcases hp with hp | hp <;> simp [next, hp]
+  rw [runK_cons_before [] hbefore, nextK_reading_nil _ _ (by simp [sentByClient]), hn]
+  exact c15_loop_stall_closed_at_limit S L _ [] (wf_enter ..) rfl hl (fun _ hx => by cases hx)
+
+example : runK ⟨false, false, false⟩ ⟨400, 250, 0, 300, 200, 150⟩ ⟨enter ⟨400, 250, 0, 300, 200, 150⟩ .writing 100, []⟩
+    [(120, .complete)] = .closed 520 .idle 120 := by decide
+
+/-- a COMPLETE pipelined request in front of the partial head: it is served first (handed to the origin at
+    the instant the loop comes round, `u₁`, the pieces after it stay in the reader), and when ITS response
+    has been relayed, at `t₂`, the partial head is under the header limit from `u₂ = max t₂ u₁` -/
+theorem c15_pipelined_request_then_partial_head (S : Stacking) (L : Limits) (c : Conn) (b t₁ t₂ : Nat)
+    (evs : List (Nat × Ev)) (hp : c.phase = .waitingForOrigin ∨ c.phase = .writing) (hb : 0 < b)
+    (hbefore : ∀ d, c.deadline = some d → max t₁ c.anchor < d) (hl : 0 < headerLimit L)
+    (hs : ∀ x ∈ evs, x.2 = .data) :
+    nextK S L ⟨c, .head .noBody :: partialHead b⟩ (max t₁ c.anchor) .complete
+      = ⟨⟨.waitingForOrigin, max t₁ c.anchor, none⟩, partialHead b⟩ ∧
+    runK S L ⟨c, .head .noBody :: partialHead b⟩ ((t₁, .complete) :: (t₂, .complete) :: evs)
+      = .closed (max t₂ (max t₁ c.anchor) + headerLimit L) .header (max t₂ (max t₁ c.anchor)) := by
+  have hn : next S L c (max t₁ c.anchor) .complete = enter L .idle (max t₁ c.anchor) := by
+    rcases hp with hp | hp <;> simp [next, hp]
+  have hk : nextK S L ⟨c, .head .noBody :: partialHead b⟩ (max t₁ c.anchor) .complete
+      = ⟨⟨.waitingForOrigin, max t₁ c.anchor, none⟩, partialHead b⟩ := by
+    simp only [nextK, sentByClient, Bool.and_false, Bool.false_eq_true, if_false, hn]
+    simp only [drain, enter, notReading, Bool.false_eq_true, if_false, next, afterHead]
+    exact drain_notReading _ _ rfl
+  refine ⟨hk, ?_⟩
+  rw [runK_cons_before _ hbefore, hk]
+  exact (c15_buffered_partial_head_still_limited S L ⟨.waitingForOrigin, max t₁ c.anchor, none⟩ b t₂ evs
+    (Or.inl rfl) hb (by intro d h; cases h) hl hs).2.2.2
+
+example : runK ⟨false, false, false⟩ ⟨400, 250, 0, 300, 200, 0⟩
+    ⟨⟨.waitingForOrigin, 10, none⟩, [.head .noBody, .head .noBody, .data]⟩
+    [(100, .complete), (180, .complete), (300, .complete)] = .closed 550 .header 300 := by decide
+
+/-- a partial BODY behind a complete pipelined head: at the instant the loop comes round the head is read
+    (`t0 = u`) and the body is under the whole-request deadline `u + ReadTimeout` — closed then when
+    ReadTimeout is set, never cut when it is not (the header deadline is cleared).  (`closed … .body`, here
+    as in sections A–D: the instant the read of the body is abandoned.  What the code does with the
+    connection then is not modelled; the scenario stalls inside bodies only with ReadTimeout unset.) -/
+theorem c15_buffered_partial_body (S : Stacking) (L : Limits) (c : Conn) (b t : Nat)
+    (evs : List (Nat × Ev)) (hp : c.phase = .waitingForOrigin ∨ c.phase = .writing)
+    (hbefore : ∀ d, c.deadline = some d → max t c.anchor < d) (hs : ∀ x ∈ evs, x.2 = .data) :
+    nextK S L ⟨c, .head .withBody :: partialHead b⟩ (max t c.anchor) .complete
+      = ⟨⟨.body, max t c.anchor, dl L.read (max t c.anchor)⟩, []⟩ ∧
+    (0 < L.read → runK S L ⟨c, .head .withBody :: partialHead b⟩ ((t, .complete) :: evs)
+      = .closed (max t c.anchor + L.read) .body (max t c.anchor)) ∧
+    (L.read = 0 → runK S L ⟨c, .head .withBody :: partialHead b⟩ ((t, .complete) :: evs)
+      = .stays ⟨.body, max t c.anchor, none⟩) := by
+  have hn : next S L c (max t c.anchor) .complete = enter L .idle (max t c.anchor) := by
+    rcases hp with hp | hp <;> simp [next, hp]
+  have hk : nextK S L ⟨c, .head .withBody :: partialHead b⟩ (max t c.anchor) .complete
+      = ⟨⟨.body, max t c.anchor, dl L.read (max t c.anchor)⟩, []⟩ := by
+    simp only [nextK, sentByClient, Bool.and_false, Bool.false_eq_true, if_false, hn]
+    simp only [drain, enter, notReading, Bool.false_eq_true, if_false, next, afterHead]
+    exact drain_noProgress _ _ rfl (noProgress_partialHead b rfl)
+  have hev : ∀ x ∈ evs, noProgress Phase.body x.2 = true := fun x hx => by rw [hs x hx]; rfl
+  refine ⟨hk, fun hr => ?_, fun hr => ?_⟩
+  · rw [runK_cons_before _ hbefore, hk]
+    exact runK_stalled_some (by simp [dl, hr]) rfl evs hev
+  · rw [runK_cons_before _ hbefore, hk]
+    have := runK_stalled_none (S := S) (L := L) (c := ⟨.body, max t c.anchor, dl L.read (max t c.anchor)⟩)
+      (by simp [dl, hr]) rfl evs hev
+    simpa [dl, hr] using this
+
+example : runK ⟨false, false, false⟩ ⟨400, 250, 300, 300, 200, 0⟩
+    ⟨⟨.waitingForOrigin, 10, none⟩, [.head .withBody, .data]⟩ [(500, .complete), (600, .data)]
+      = .closed 800 .body 500 := by decide
+
+/-- end to end on a plain listener: a request and `b > 0` pieces of the next head in ONE segment at `t₁`,
+    the origin's answer relayed at `t₂` (however late): closed at `t₂ + readHeaderTimeout()` — the instant
+    the pieces were sent does not enter, nor does the idle limit -/
+theorem c15_pipelined_partial_head_end_to_end (S : Stacking) (L : Limits) (a t₁ t₂ b : Nat)
+    (evs : List (Nat × Ev)) (hP : S.proxy = false) (hT : S.tls = false) (h1 : a ≤ t₁) (h2 : t₁ ≤ t₂)
+    (hi : idleLimit L = 0 ∨ t₁ < a + idleLimit L) (hb : 0 < b) (hl : 0 < headerLimit L)
+    (hs : ∀ x ∈ evs, x.2 = .data) :
+    runK S L ⟨accepted S L a, []⟩
+        ((t₁, .head .noBody) :: (List.replicate b (t₁, .data) ++ (t₂, .complete) :: evs))
+      = .closed (t₂ + headerLimit L) .header t₂ := by
+  have hacc : accepted S L a = enter L .idle a := by simp [accepted, hP, hT]
+  have hm : max t₁ (enter L .idle a).anchor = t₁ := Nat.max_eq_left h1
+  rw [hacc, runK_cons_before, hm]
+  · have hn : nextK S L ⟨enter L .idle a, []⟩ t₁ (.head .noBody) = ⟨⟨.waitingForOrigin, t₁, none⟩, []⟩ := by
+      rw [nextK_reading_nil _ _ (by simp [enter, notReading])]; rfl
+    rw [hn, runK_buffer_pieces rfl rfl, List.nil_append]
+    have := (c15_buffered_partial_head_still_limited S L ⟨.waitingForOrigin, t₁, none⟩ b t₂ evs
+      (Or.inl rfl) hb (by intro d h; cases h) hl hs).2.2.2
+    simpa [Nat.max_eq_left h2] using this
+  · intro d hd
+    have := dl_eq_some (show dl (idleLimit L) a = some d from hd)
+    rw [hm]; omega
+
+example : runK ⟨false, false, false⟩ ⟨400, 250, 0, 300, 200, 0⟩ ⟨accepted ⟨false, false, false⟩ ⟨400, 250, 0, 300, 200, 0⟩ 0, []⟩
+    [(10, .head .noBody), (10, .data), (10, .data), (2000, .complete)] = .closed 2250 .header 2000 := by decide
+
+/-- the variant `nextKskip/runKskip` — deadlines armed only when the reader is empty — is refuted, kernel-checked.
+    A request and one piece of the next head in one segment at 10, response relayed at 100, ReadTimeout
+    unset (the previous request left no read deadline): the code closes the stalled connection at 350, the
+    variant NEVER (no deadline of any kind is armed while it reads the head).  With ReadTimeout 300 and an
+    origin that answers at 500 the variant reads the head under the deadline the previous request left
+    (310): the connection is dead the moment the loop comes round, the code closes it at 750.  Complete
+    pipelined requests do not tell the two apart -/
+theorem c15_skip_when_buffered_refuted :
+    ∃ (S : Stacking) (L L' : Limits) (a : Nat),
+      runK S L ⟨accepted S L a, []⟩ [(10, .head .noBody), (10, .data), (100, .complete)]
+        = .closed 350 .header 100 ∧
+      runKskip S L (dl L.read 10) ⟨accepted S L a, []⟩ [(10, .head .noBody), (10, .data), (100, .complete)]
+        = .stays ⟨.header, 100, none⟩ ∧
+      runK S L' ⟨accepted S L' a, []⟩ [(10, .head .noBody), (10, .data), (500, .complete)]
+        = .closed 750 .header 500 ∧
+      runKskip S L' (dl L'.read 10) ⟨accepted S L' a, []⟩ [(10, .head .noBody), (10, .data), (500, .complete)]
+        = .closed 310 .header 500 ∧
+      runK S L ⟨accepted S L a, []⟩ [(10, .head .noBody), (10, .head .noBody), (100, .complete), (200, .complete)]
+        = .closed 600 .idle 200 ∧
+      runKskip S L (dl L.read 10) ⟨accepted S L a, []⟩
+          [(10, .head .noBody), (10, .head .noBody), (100, .complete), (200, .complete)]
+        = .closed 600 .idle 200 :=
+  ⟨⟨false, false, false⟩, ⟨400, 250, 0, 300, 200, 0⟩, ⟨400, 250, 300, 300, 200, 0⟩, 0,
+    by decide, by decide, by decide, by decide, by decide, by decide⟩
+
+/-! ## I. Progress that does not complete a phase never moves its deadline (dribbling peers)
+
+Every limit that bounds an operation of many reads — PROXY header, listener handshake, request head, request
+body under ReadTimeout, MITM handshake — and the write deadline are ONE instant fixed when the phase begins. -/
+
+/-- a piece that arrives at `t` (any `t`) and does not complete the phase leaves phase, anchor and deadline
+    alone — for every phase whose limit bounds an operation of many reads, and for `writing` -/
+theorem c15_progress_does_not_extend_deadline (S : Stacking) (L : Limits) (c : Conn) (t : Nat)
+    (hp : multiRead c.phase = true ∨ c.phase = .writing) :
+    next S L c t .data = c ∧ (next S L c t .data).deadline = c.deadline ∧
+      (multiRead c.phase = true → nextK S L ⟨c, []⟩ t .data = ⟨c, []⟩) := by
+  have hnp : noProgress c.phase .data = true := by
+    rcases hp with hp | hp <;> cases hph : c.phase <;> simp_all [multiRead, noProgress]
+  refine ⟨next_noProgress hnp, by rw [next_noProgress hnp], fun hm => ?_⟩
+  exact nextK_noProgress (by cases hph : c.phase <;> simp_all [multiRead, notReading]) hnp
+
+example : multiRead .proxyHeader = true ∧ multiRead .tlsHandshake = true ∧ multiRead .header = true ∧
+    multiRead .body = true ∧ multiRead .mitmHandshake = true := by decide
+
+/-- a peer that dribbles — `n` pieces (any `n`), one every `g` (any `g`: shorter than the limit or not) — in
+    a phase that began at `s` is cut at `s + limit`, exactly as one that sends nothing; in the plain
+    automaton and in the loop -/
+theorem c15_dribble_cut_at_phase_start_plus_limit (S : Stacking) (L : Limits) (p : Phase) (s g n : Nat)
+    (hp : multiRead p = true) (hl : 0 < limitOf L p) :
+    run S L (enter L p s) (dribble s g n) = .closed (s + limitOf L p) p s ∧
+    runK S L ⟨enter L p s, []⟩ (dribble s g n) = .closed (s + limitOf L p) p s := by
+  have hnp : ∀ x ∈ dribble s g n, noProgress (enter L p s).phase x.2 = true := by
+    intro x hx
+    rw [dribble_all_data s g n x hx]
+    cases p <;> simp_all [multiRead, noProgress, enter]
+  have hnr : notReading (enter L p s).phase = false := by cases p <;> simp_all [multiRead, notReading, enter]
+  exact ⟨c15_stall_closed_at_limit S L _ _ (wf_enter ..) hl hnp,
+    c15_loop_stall_closed_at_limit S L _ _ (wf_enter ..) hnr hl hnp⟩
+
+example : run ⟨true, false, false⟩ ⟨400, 250, 0, 300, 200, 0⟩ (accepted ⟨true, false, false⟩ ⟨400, 250, 0, 300, 200, 0⟩ 0)
+    (dribble 0 150 10) = .closed 200 .proxyHeader 0 := by decide
+
+/-- the variant `nextRearm/runRearm` — the limit armed anew before every read — holds a peer that dribbles
+    with gaps shorter than the limit for as long as the peer likes: `n` pieces move the closing instant to
+    `s + n·g + limit` -/
+theorem c15_rearm_per_read_unbounded (S : Stacking) (L : Limits) (p : Phase) (s g n : Nat)
+    (hp : multiRead p = true) (hg : g < limitOf L p) :
+    runRearm S L (enter L p s) (dribble s g n) = .closed (s + n * g + limitOf L p) p s :=
+  runRearm_dribble n (c := enter L p s) hp (Nat.le_refl s) (dl_pos (by omega)) hg
+
+example : runRearm ⟨false, true, false⟩ ⟨400, 250, 0, 300, 200, 0⟩ (enter ⟨400, 250, 0, 300, 200, 0⟩ .tlsHandshake 7)
+    (dribble 7 299 5) = .closed 1802 .tlsHandshake 7 := by decide
+
+/-- … hence refuted, kernel-checked: PROXY listener, header timeout 200, one header byte every 150 ms, ten
+    of them: the code closes the connection at 200, the variant at 1700 (and later for every further byte);
+    a peer that sends nothing does not tell the two apart (which is why only dribbling peers do) -/
+theorem c15_rearm_per_read_refuted :
+    ∃ (S : Stacking) (L : Limits) (a : Nat),
+      run S L (accepted S L a) (dribble a 150 10) = .closed 200 .proxyHeader 0 ∧
+      runRearm S L (accepted S L a) (dribble a 150 10) = .closed 1700 .proxyHeader 0 ∧
+      run S L (accepted S L a) [] = .closed 200 .proxyHeader 0 ∧
+      runRearm S L (accepted S L a) [] = .closed 200 .proxyHeader 0 ∧
+      run S L (accepted S L a) [(5, .data)] = runRearm S L (accepted S L a) [] :=
+  ⟨⟨true, false, false⟩, ⟨400, 250, 0, 300, 200, 0⟩, 0, by decide, by decide, by decide, by decide, by decide⟩
 
 end C15
 end FwdVerif
